@@ -82,3 +82,23 @@ def declare_shutdown(E):
                        " and ghost('notifications') >= old(ghost('notifications')) + 1)",
                },
                returns="none", raises={})
+
+
+def declare_open_channel(E):
+    """the wait at the end of Transport.open_channel: short waits, each followed by a look at the transport's state"""
+    E.declare_ghost(long_waits="int")
+    E.declare_class("paramiko.transport.Transport", {"_channels": "opaque:ChanMap2"})
+    E.contract("ChanMap2.get", argnames=["self", "k"], returns="opt[opaque:Chan]")
+    E.contract(T + "_send_user_message", params={"data": "obj:Message"}, returns="none", raises=dict(RA), modifies=[])
+    E.contract(T + "open_channel::part[wait-for-the-peer]",
+               # from handing the CHANNEL_OPEN to the transport to the end of the function, whatever shape the waiting takes
+               fragment=dict(first="self._send_user_message(m)", last="raise e"),
+               params={"self": "obj:Transport", "event": "opaque:Event", "timeout": "float", "chanid": "int", "m": "obj:Message"},
+               requires={"sane_timeout": "timeout >= 0"},
+               ensures={"never_waits_long_without_looking_at_the_transport": "ghost('long_waits') == old(ghost('long_waits'))"},
+               loops={0: dict(inv=["ghost('long_waits') == old(ghost('long_waits'))"], havoc_fields=["self.active"],
+                              exit_when="not self.active")},
+               returns="opt[opaque:Chan]",
+               raises={"SSHException": {"when": "True", "ensures": ["ghost('long_waits') == old(ghost('long_waits'))"]},
+                       "EOFError": {"when": "True", "ensures": ["ghost('long_waits') == old(ghost('long_waits'))"]},
+                       "OSError": {"when": "True", "ensures": ["ghost('long_waits') == old(ghost('long_waits'))"]}})
